@@ -57,11 +57,11 @@ abbrev Zone := List RRset
 def lowerName (n : LName) : LName := n.map Name.lowerLabel
 
 /-- `self.records.get(&RrKey::new(name, type))` -/
-def get (z : Zone) (n : LName) (t : Nat) : Option RRset :=
+def getRR (z : Zone) (n : LName) (t : Nat) : Option RRset :=
   z.find? fun r => r.name == n && r.type == t
 
 /-- `self.records.contains_key(..)` -/
-def has (z : Zone) (n : LName) (t : Nat) : Bool := (get z n t).isSome
+def has (z : Zone) (n : LName) (t : Nat) : Bool := (getRR z n t).isSome
 
 /-- `LowerName::zone_of` : `zone` is `n` or an ancestor of `n` -/
 def zoneOf (zone n : LName) : Bool := zone.isSuffixOf n
@@ -75,7 +75,7 @@ for a DS query; an owner of NS *and* SOA stops the walk; the root stops the walk
 def walk (z : Zone) (qname : LName) (qtype : Nat) : LName → Option RRset
   | [] => none
   | l :: rest =>
-    match get z (l :: rest) T_NS, has z (l :: rest) T_SOA with
+    match getRR z (l :: rest) T_NS, has z (l :: rest) T_SOA with
     | some ns, false =>
       if qtype == T_DS && (l :: rest) == qname then walk z qname qtype rest else some ns
     | some _, true => none
